@@ -2,6 +2,7 @@
 from collections import OrderedDict
 
 from .arr import SymArr, as_array, new_array, broadcast_getter
+from .core import Proxy  # noqa
 from .core import Unsupported, and_, ctx, is_sym, ite, not_, or_
 
 
@@ -9,7 +10,7 @@ def _use(name):
     ctx().used_prelude.add("xarray." + name)
 
 
-class SymCoord:
+class SymCoord(Proxy):
     """A coordinate variable: .values is an array, .dims the dimension names it spans."""
 
     def __init__(self, values, dims, name=None):
